@@ -405,15 +405,15 @@ Section FlaggedFlush.
   Lemma is_dirty_clean id : is_dirty (mark_of CLEAN id) = false.
   Proof. reflexivity. Qed.
 
-  Lemma flagged_flush_correct st sp W last id os k0 :
-    flag_inv fk st sp W last -> (forall rc, last = Some rc -> r_id rc <> id) ->
+  Lemma flagged_flush_inv st sp W last id os k0 :
+    flag_inv fk st sp W last ->
     let dbs' := with_marks fk id (remove_all (sp_doomed sp) (sp_dbs sp)) in
     let res := f_flush fk id (arrange (nth_order os 0) (map fst st)) st in
     let rc' := mkRec k0 id dbs' in
     flag_inv fk (fst res) (mkSpec dbs' []) (apply_dops (snd res) W) (Some rc') /\
-    strict_prefixes (Fl fk last) (snd res) W.
+    snd res = concat (map (gf id st) (arrange (nth_order os 0) (map fst st))).
   Proof.
-    intros I Hid. pose proof I as [A B C R D Cl Q]. cbn zeta.
+    intros I. pose proof I as [A B C R D Cl Q]. cbn zeta.
     set (ns := arrange (nth_order os 0) (map fst st)).
     assert (ND : NoDup ns) by (apply arrange_nodup; auto).
     assert (Inn : forall n, In n ns <-> fget n st <> None).
@@ -469,8 +469,25 @@ Section FlaggedFlush.
         * intros key. destruct (bytes_eqb fk key) eqn:Ek.
           -- apply bytes_eqb_eq in Ek; subst. rewrite !dget_dput_eq. reflexivity.
           -- apply beqb_false in Ek. rewrite (Usr n c0 key G); auto. rewrite dget_dput_neq; auto. eapply R; eauto.
-    - destruct (inv_Pid fk _ _ _ _ I) as [Nm Pd].
-      apply flush_prefixes; auto.
+    - reflexivity.
+  Qed.
+
+  Lemma flagged_flush_correct st sp W last id os k0 :
+    flag_inv fk st sp W last -> (forall rc, last = Some rc -> r_id rc <> id) ->
+    let dbs' := with_marks fk id (remove_all (sp_doomed sp) (sp_dbs sp)) in
+    let res := f_flush fk id (arrange (nth_order os 0) (map fst st)) st in
+    let rc' := mkRec k0 id dbs' in
+    flag_inv fk (fst res) (mkSpec dbs' []) (apply_dops (snd res) W) (Some rc') /\
+    strict_prefixes (Fl fk last) (snd res) W.
+  Proof.
+    intros I Hid. destruct (flagged_flush_inv st sp W last id os k0 I) as [I' Eo]. cbn zeta in *.
+    split; [exact I'|]. rewrite Eo. pose proof I as [A B C R D Cl Q].
+    set (ns := arrange (nth_order os 0) (map fst st)).
+    assert (ND : NoDup ns) by (apply arrange_nodup; auto).
+    assert (Inn : forall n, In n ns <-> fget n st <> None).
+    { intros n. unfold ns. rewrite arrange_in. apply fget_in_names. }
+    destruct (inv_Pid fk _ _ _ _ I) as [Nm Pd].
+    apply flush_prefixes; auto.
       + intros n Hn. apply Inn in Hn. assert (Y : wget n W <> None) by (apply B; auto).
         destruct (wget n W) as [c|] eqn:G; [|contradiction]. exists c. split; auto.
         destruct (fget n st) as [[|]|] eqn:F; [| |contradiction].
